@@ -3,6 +3,7 @@ package rules
 import (
 	"fmt"
 	"go/ast"
+	"go/token"
 	"go/types"
 	"sort"
 
@@ -19,6 +20,10 @@ type guard struct {
 
 type lockExc struct {
 	Func, Field, Reason string
+	// AfterRecv (with Func == ""): the access `x.Field` is excused in any function when it sits
+	// in the select case (or after the statement) that received from `x.<AfterRecv>` — the
+	// channel is closed under the lock after the fields were written
+	AfterRecv string
 }
 
 type lockset map[*types.Var]bool
@@ -305,6 +310,29 @@ func guardedBy(e *Env, rule string, table []guard, excs []lockExc) {
 				r.Except(rule, key, w.Pos(a.sel.Pos()), desc, reason)
 				return
 			}
+			for _, x := range excs {
+				if x.AfterRecv == "" || x.Field != a.field.Name() {
+					continue
+				}
+				se := a.sel
+				want := types.ExprString(se.X) + "." + x.AfterRecv
+				par := parents(u.pos)
+				found := false
+				for cur := ast.Node(a.sel); cur != nil && !found; cur = par[cur] {
+					if cc, ok := par[cur].(*ast.CommClause); ok && cc.Comm != nil {
+						ast.Inspect(cc.Comm, func(m ast.Node) bool {
+							if ue, ok := m.(*ast.UnaryExpr); ok && ue.Op == token.ARROW && types.ExprString(ue.X) == want {
+								found = true
+							}
+							return true
+						})
+					}
+				}
+				if found {
+					r.Except(rule, key, w.Pos(a.sel.Pos()), desc, x.Reason)
+					return
+				}
+			}
 			r.Fail(rule, key, w.Pos(a.sel.Pos()), desc, fmt.Sprintf("`%s` is accessed in %s without holding %s on some path (entry lock set %v): concurrent callers race on the pool bookkeeping", types.ExprString(a.sel), u.name, guardOf[a.field].Name(), lsNames(entry[u])))
 		})
 	}
@@ -350,8 +378,8 @@ func c10Lock(e *Env) {
 		{Rel: "pkg/protocol/http1", Typ: "wantConn", Field: "conn", Lock: "mu"},
 		{Rel: "pkg/protocol/http1", Typ: "wantConn", Field: "err", Lock: "mu"},
 	}, []lockExc{
-		{Func: "pkg/protocol/http1.HostClient.acquireConn", Field: "conn", Reason: "read after `<-w.ready`: the channel is closed under mu after the fields were written (tryDeliver/cancel), which orders the read after the write"},
-		{Func: "pkg/protocol/http1.HostClient.acquireConn", Field: "err", Reason: "read after `<-w.ready` (see conn)"},
+		{Field: "conn", AfterRecv: "ready", Reason: "read in the select case that received from w.ready: the channel is closed under mu after the fields were written (tryDeliver/cancel), which orders the read after the write"},
+		{Field: "err", AfterRecv: "ready", Reason: "read after `<-w.ready` (see conn)"},
 		{Func: "pkg/protocol/http1.HostClient.WantConnectionCount", Field: "connsWait", Reason: "observer-only racy read used for metrics; not part of the pool invariants the property states"},
 	})
 }
